@@ -12,6 +12,23 @@ use hyper_util::rt::{TokioExecutor, TokioIo};
 use std::net::SocketAddr;
 use std::time::Duration;
 
+type ReqBody = http_body_util::combinators::BoxBody<Bytes, std::convert::Infallible>;
+
+/// A body that does not tell its length in advance: hyper then sends no
+/// content-length header and ends the stream after the last DATA frame.
+struct Unsized(Full<Bytes>);
+
+impl hyper::body::Body for Unsized {
+    type Data = Bytes;
+    type Error = std::convert::Infallible;
+    fn poll_frame(
+        mut self: std::pin::Pin<&mut Self>,
+        cx: &mut std::task::Context<'_>,
+    ) -> std::task::Poll<Option<Result<hyper::body::Frame<Bytes>, Self::Error>>> {
+        std::pin::Pin::new(&mut self.0).poll_frame(cx)
+    }
+}
+
 /// `h2_err` of a stream the client itself cancelled.
 pub const CANCELLED: &str = "cancelled by client";
 
@@ -62,7 +79,7 @@ pub async fn run_conn_h2(
                 return obs;
             }
         };
-        match hyper::client::conn::http2::handshake::<_, _, Full<Bytes>>(TokioExecutor::new(), TokioIo::new(crate::client_tls::SpinGuard::new(stream, world.clone()))).await {
+        match hyper::client::conn::http2::handshake::<_, _, ReqBody>(TokioExecutor::new(), TokioIo::new(crate::client_tls::SpinGuard::new(stream, world.clone()))).await {
             Ok((s, conn)) => (s, tokio::spawn(async move { let _ = conn.await; })),
             Err(e) => {
                 for x in obs.h2_err.iter_mut() {
@@ -73,7 +90,7 @@ pub async fn run_conn_h2(
             }
         }
     } else {
-        match hyper::client::conn::http2::handshake::<_, _, Full<Bytes>>(TokioExecutor::new(), TokioIo::new(end.clone())).await {
+        match hyper::client::conn::http2::handshake::<_, _, ReqBody>(TokioExecutor::new(), TokioIo::new(end.clone())).await {
             Ok((s, conn)) => (s, tokio::spawn(async move { let _ = conn.await; })),
             Err(e) => {
                 for x in obs.h2_err.iter_mut() {
@@ -97,7 +114,9 @@ pub async fn run_conn_h2(
             for (n, v) in &hr.headers {
                 b = b.header(n.as_str(), v.0.as_slice());
             }
-            let req = match b.body(Full::new(Bytes::from(hr.body.0.clone()))) {
+            let full = Full::new(Bytes::from(hr.body.0.clone()));
+            let body: ReqBody = if hr.no_length { Unsized(full).boxed() } else { full.boxed() };
+            let req = match b.body(body) {
                 Ok(r) => r,
                 Err(e) => return (hr.req, Err(format!("build: {e}"))),
             };
